@@ -448,9 +448,19 @@ def setDelSlice (s : St) (g : Nat) (sl : Slice) : St × Out :=
       | _, _ => (s, .raise .valueError)       -- slice step cannot be zero
   | none => (s, .bad)
 
-/-- `del set[i]` (int): `i = slice(i, i+1)` — so `-1` selects nothing and an out-of-range index is a no-op -/
+/-- `del set[i]` (int; after fix 3c1b869): `super().remove(self._order[i])` (IndexError like a list: negative indices
+    count from the end, out of range raises); `del self._order[i]`.  Expressed through the slice deletion of the one
+    normalised position. -/
 def setDelItem (s : St) (g : Nat) (i : Int) : St × Out :=
-  setDelSlice s g ⟨some i, some (i + 1), none⟩
+  match s.sets[g]? with
+  | some S =>
+    match S.order with
+    | none => (s, .bad)
+    | some o =>
+      match normIdx i o.length with
+      | none => (s, .raise .indexError)
+      | some j => setDelSlice s g ⟨some (Int.ofNat j), some (Int.ofNat j + 1), none⟩
+  | none => (s, .bad)
 
 /-- `for i in new_items: super().add(i); successful.append(i)`: returns the successfully added prefix -/
 def addAll (s : St) (g : Nat) : List Nat → St × List Nat × Out
